@@ -510,6 +510,101 @@ def stage_scan(ctx, e):
                 ctx.violation("scan:outside", "a recursive import touched something outside the root (or the root)", {"kind": "scan", "form": form})
 
 
+def stage_events(ctx):
+    """every way a new file can arrive under a watched root, delivered as the watchdog events it causes (to the real
+    `RegisterFile` handler, synchronously): written in place; written under a hidden name and renamed into place; written under a
+    lock file that is then removed; renamed between ordinary names; renamed to a hidden name; directories created / renamed.
+    After the queued import tasks have run (nothing locked any more): every regular, non-hidden file on disk has exactly one
+    present copy on the node, and nothing hidden is registered."""
+    import alpenhorn.daemon.update as upd
+    from alpenhorn.daemon import auto_import
+    from alpenhorn.scheduler import FairMultiFIFOQueue
+    from watchdog.events import FileCreatedEvent, FileMovedEvent, FileDeletedEvent, DirCreatedEvent, DirMovedEvent
+    import shutil
+    with envmod.Env() as e:
+        w = worldmod.World(e)
+        db = w.db
+        for m in (db.StorageTransferAction, db.ArchiveFileCopyRequest, db.ArchiveFileImportRequest, db.ArchiveFileCopy,
+                  db.ArchiveFile, db.ArchiveAcq, db.StorageNode, db.StorageGroup):
+            m.delete().execute()
+        shutil.rmtree(os.path.join(e.tmp, "roots"), ignore_errors=True)
+        node = w.node("n", w.group("g"))
+        root = node.root
+        verif_idext.MODE[:] = ["first", 1]
+        e.set_host("h1")
+        q = FairMultiFIFOQueue()
+        un = upd.UpdateableNode(q, db.StorageNode.get(id=node.id))
+        h = auto_import.RegisterFile(un, q)
+        log = []
+
+        def P(rel):
+            p = os.path.join(root, rel)
+            os.makedirs(os.path.dirname(p), exist_ok=True)
+            return p
+
+        def write(rel, data):
+            with open(P(rel), "wb") as fh:
+                fh.write(data)
+        # (a) written in place
+        write("acq/sub/inplace.dat", b"in place")
+        h.on_created(FileCreatedEvent(P("acq/sub/inplace.dat"))); log.append("created acq/sub/inplace.dat")
+        # (b) hidden temporary name, then renamed into place
+        write("acq/sub/.final.dat.Xa81Qz", b"renamed into place")
+        h.on_created(FileCreatedEvent(P("acq/sub/.final.dat.Xa81Qz")))
+        os.rename(P("acq/sub/.final.dat.Xa81Qz"), P("acq/sub/final.dat"))
+        h.on_moved(FileMovedEvent(P("acq/sub/.final.dat.Xa81Qz"), P("acq/sub/final.dat"))); log.append("moved .final.dat.Xa81Qz -> final.dat")
+        # (c) written under a lock file
+        write("acq/.locked.dat.lock", b"")
+        h.on_created(FileCreatedEvent(P("acq/.locked.dat.lock")))
+        write("acq/locked.dat", b"written under a lock")
+        h.on_created(FileCreatedEvent(P("acq/locked.dat"))); log.append("created acq/locked.dat while .locked.dat.lock exists")
+        os.remove(P("acq/.locked.dat.lock"))
+        h.on_deleted(FileDeletedEvent(P("acq/.locked.dat.lock"))); log.append("deleted .locked.dat.lock")
+        # (d) an ordinary file renamed to another ordinary name (only the rename is seen)
+        write("acq/renamed.dat", b"renamed")
+        h.on_moved(FileMovedEvent(P("acq/old-name.dat"), P("acq/renamed.dat"))); log.append("moved old-name.dat -> renamed.dat")
+        # (e) renamed to a hidden name
+        write("acq/.hidden.dat", b"hidden")
+        h.on_moved(FileMovedEvent(P("acq/visible.dat"), P("acq/.hidden.dat"))); log.append("moved visible.dat -> .hidden.dat")
+        # (f) directories
+        os.makedirs(P("acq/newdir/x")[:-2], exist_ok=True)
+        h.on_created(DirCreatedEvent(P("acq/newdir/x")[:-2]))
+        h.on_moved(DirMovedEvent(P("acq/olddir/x")[:-2], P("acq/newdir/x")[:-2]))
+        try:
+            for _ in range(60):
+                item = q.get(timeout=0.001)
+                if item is None:
+                    if q.deferred_size:
+                        q._deferrals = [(k * 1e-9, *d[1:]) for k, d in enumerate(q._deferrals)]
+                        continue
+                    break
+                try:
+                    item[0]()
+                finally:
+                    q.task_done(item[1])
+        except Exception as ex:  # noqa
+            ctx.violation("events:raised", f"an event-triggered import raised {type(ex).__name__}: {ex}", {"kind": "events", "events": log})
+        have = {}
+        for c in db.ArchiveFileCopy.select().where(db.ArchiveFileCopy.node == node.id, db.ArchiveFileCopy.has_file == "Y"):
+            k = f"{c.file.acq.name}/{c.file.name}"
+            have[k] = have.get(k, 0) + 1
+        on_disk = []
+        for dp, dn, fn in os.walk(os.path.join(root, "acq")):
+            for f_ in fn:
+                on_disk.append(os.path.relpath(os.path.join(dp, f_), root))
+        for rel in sorted(on_disk):
+            hidden = any(part.startswith(".") for part in rel.split("/"))
+            ctx.case(("event-arrival", rel), nontrivial=True)
+            ctx.count(f"events:{'hidden' if hidden else 'ordinary'}:{'registered' if have.get(rel) else 'not-registered'}")
+            if hidden and have.get(rel):
+                ctx.violation("events:hidden-registered", f"the hidden file {rel} was registered as data after the events {log}",
+                              {"kind": "events", "events": log})
+            if not hidden and have.get(rel, 0) != 1:
+                ctx.violation("events:not-imported", f"{rel} arrived under the watched root (events: {log}) and is a regular, unlocked, "
+                              f"non-hidden file, but it has {have.get(rel, 0)} present copy record(s) on the node after the import tasks ran",
+                              {"kind": "events", "events": log, "file": rel})
+
+
 def run(ctx):
     ok = common.proof_stage(ctx, MODULE)
     rng = ctx.rng
@@ -536,6 +631,7 @@ def run(ctx):
     with envmod.Env(dbfile=True) as e2:
         stage_race(ctx, e2)
     stage_hsm_import(ctx)
+    stage_events(ctx)
     with envmod.Env() as e3:
         stage_scan(ctx, e3)
     ctx.coverage["rule"] = ("a fixed adversarial tree per case (regular files incl. nested and dot-directories, dot-files, lock file, placeholder, "
